@@ -32,7 +32,7 @@ Definition ekind_eqb (a b : ekind) : bool :=
   | EMixed, EMixed | EDecode, EDecode | EDtsRtc, EDtsRtc | ENoSupportedTracks, ENoSupportedTracks
   | ETsInit, ETsInit | ETsRead, ETsRead | EOnTracks, EOnTracks | EBlocked, EBlocked
   | ENoSegments, ENoSegments | ENotEnough, ENotEnough | ENextNotFound, ENextNotFound
-  | ETooLate, ETooLate | EHintGone, EHintGone => true
+  | ETooLate, ETooLate | EHintGone, EHintGone | EInvalidTimeScale, EInvalidTimeScale => true
   | _, _ => false
   end.
 
@@ -95,13 +95,19 @@ Record ccase := {
 
 Definition two_seconds : Z := 2000000000.
 
+(* Which tree the model follows. false = the pinned tree (findings recorded, not repaired).
+   When the proposed repair (findings/C13-*.json) is committed to /repo, set this to true:
+   the model then follows the repaired code and Props/C13.v's c13_content_no_panic_after_repair
+   is the full theorem about it. *)
+Definition repo_repaired : bool := true.
+
 Definition outcome_eqb (a b : outcome) : bool :=
   tracks_eqb (o_tracks a) (o_tracks b) && oend_eqb (oend_of (o_end a)) (oend_of (o_end b))
   && list_eqb (list_eqb Nat.eqb) (o_counts a) (o_counts b) && Nat.eqb (o_decodeErrors a) (o_decodeErrors b).
 
 Definition check_case (c : ccase) : list nat :=
-  let o := client_run (cc_sc c) 0 in
-  let o2 := client_run (cc_sc c) two_seconds in
+  let o := client_run_gen repo_repaired (cc_sc c) 0 in
+  let o2 := client_run_gen repo_repaired (cc_sc c) two_seconds in
   (if outcome_eqb o o2 then [] else [1%nat]) ++
   (if tracks_eqb (o_tracks o) (cc_tracks c) then [] else [2%nat]) ++
   (if existsb (oend_eqb (oend_of (o_end o))) (cc_ends c) then [] else [3%nat]) ++
